@@ -487,7 +487,7 @@ def part_mpi(ctx):
             rp = {"kind": "mpi", "W": W, "lb": lb, "batches": batches, "eager": True, "default_comm": False, "workers_call_map": False,
                   ("options" if mode == "por" else "choices"): choices}
             record(W, lb, batches, out, rp)
-        key = "W=%d,lb=%s,sizes=%s" % (W, "T" if lb else "F", "+".join(str(len(t)) for _, t in batches))
+        key = "W=%d,lb=%s,sizes=%s,fns=%s" % (W, "T" if lb else "F", "+".join(str(len(t)) for _, t in batches), "+".join(str(g) for g, _ in batches))
         if mode == "por":
             full, blocked, done = M.enumerate_por(W, lb, batches, limit=limit, on_run=on_run)
             stats["enumerated_por"][key] = {"complete_runs": full, "sleep_blocked_runs": blocked, "exhausted": done}
